@@ -285,8 +285,24 @@ func GenGenesis(t *rapid.T, prof *Profile) GenesisSpec {
 						"credit_type_abbrev": "C", "exponent": 6, "curator": b64(accts[0]),
 						"date_criteria": map[string]interface{}{"min_start_date": "2019-06-01T00:00:00Z"}},
 				})
-				doc["regen.ecocredit.basket.v1.BasketClass"] = mustJSON([]map[string]interface{}{
-					{"basket_id": "1", "class_id": "C10"}, {"basket_id": "1", "class_id": "C100"}, {"basket_id": "2", "class_id": "C10"}})
+				bclasses := []map[string]interface{}{
+					{"basket_id": "1", "class_id": "C10"}, {"basket_id": "1", "class_id": "C100"}, {"basket_id": "2", "class_id": "C10"}}
+				if draw("g.legacybaskets.exp9", 3) == 2 {
+					// a basket from before the exponent field was deprecated: its stored exponent (9) differs from the credit
+					// type's precision (6). Genesis validation accepts it; it is empty and has no tokens in circulation.
+					doc["regen.ecocredit.basket.v1.Basket"] = mustJSON([]interface{}{3,
+						map[string]interface{}{"id": "1", "basket_denom": "eco.uC.LEG", "name": "LEG", "disable_auto_retire": draw("g.legacybaskets.dar", 2) == 1,
+							"credit_type_abbrev": "C", "exponent": 6, "curator": b64(accts[1])},
+						map[string]interface{}{"id": "2", "basket_denom": "eco.uC.OLD", "name": "OLD", "disable_auto_retire": true,
+							"credit_type_abbrev": "C", "exponent": 6, "curator": b64(accts[0]),
+							"date_criteria": map[string]interface{}{"min_start_date": "2019-06-01T00:00:00Z"}},
+						map[string]interface{}{"id": "3", "basket_denom": "eco.nC.NANO", "name": "NANO", "disable_auto_retire": true,
+							"credit_type_abbrev": "C", "exponent": 9, "curator": b64(accts[2])},
+					})
+					bclasses = append(bclasses, map[string]interface{}{"basket_id": "3", "class_id": "C10"}, map[string]interface{}{"basket_id": "3", "class_id": "C100"})
+					g.Notes = append(g.Notes, "legacy-exponent-basket{NANO exponent 9, precision 6}")
+				}
+				doc["regen.ecocredit.basket.v1.BasketClass"] = mustJSON(bclasses)
 				doc["regen.ecocredit.basket.v1.BasketBalance"] = mustJSON([]map[string]interface{}{
 					{"basket_id": "1", "batch_denom": "C10-100-20200101-20210101-001", "balance": "10.25", "batch_start_date": "2020-01-01T00:00:00Z"},
 					{"basket_id": "1", "batch_denom": "C100-001-20190101-20200101-001", "balance": zero, "batch_start_date": "2019-01-01T00:00:00Z"},
